@@ -95,16 +95,22 @@ FRAME_REASON = ("body not symbolically executed (training / plotting / "
 contract(
     NS, "NestedSampler.check_state", props=["C01", "C13", "C15"],
     trusted=True, trusted_reason=FRAME_REASON, frame_check=True,
+    nonneg_frame=["block_iteration"],
     params={"force": "Bool"},
+    requires=["self.block_iteration >= 0"],
     modifies=["self.block_acceptance", "self.block_iteration",
               "self.proposal"],
+    ensures=["self.block_iteration >= 0"],
 )
 contract(
     NS, "NestedSampler.update_state", props=["C01", "C13", "C15"],
     trusted=True, trusted_reason=FRAME_REASON, frame_check=True,
+    nonneg_frame=["block_iteration"],
     params={"force": "Bool"},
+    requires=["self.block_iteration >= 0"],
     modifies=["self.block_acceptance", "self.block_iteration",
               "self.proposal"],
+    ensures=["self.block_iteration >= 0"],
 )
 
 CONSUME_MOD = [
@@ -124,7 +130,7 @@ contract(
     loops={
         0: {"inv": [
             "count >= 0",
-            "self.block_iteration != 0",
+            "self.block_iteration >= 1",
             # the live set is untouched until the replacement is accepted
             "len(self.live_points) == self.nlive",
             "forall(i, 0, self.nlive, row_eq(self.live_points[i], "
@@ -163,6 +169,13 @@ contract(
         "forall(i, r + 1, self.nlive, row_eq(self.live_points[i], "
         "old(self.live_points)[i])))",
         "self.accepted == old(self.accepted) + 1",
+        "self.block_iteration >= 1",
+        # the stopping quantity (C15): log of (Z + Lmax X_it) / Z with the
+        # evidence just updated, X_it = exp(-it/nlive), it = the iteration
+        # count before this step
+        "self.condition == LOG(E(self.state.logZ) + "
+        "E(old(self.logLmax) - real(old(self.iteration)) / real(self.nlive)))"
+        " - self.state.logZ",
     ],
 )
 
